@@ -2,6 +2,7 @@ import Driver.Util
 import Slock.Model.Text
 import Slock.Model.TextCmd
 import Slock.Model.TextMd5
+import Slock.Model.TextValue
 /-! Driver commands for M-TEXT (byte strings are hex, `-` = empty):
   textparse <chunk>,<chunk>,…        → <cmd>|<cmd>|…;<done|pending|err|panic>   (cmd = <arg>,<arg>,… ; `()` = no args; `none` = no command)
   textbuild <arg>,<arg>,…  (or `()`)  → hex of BuildRequest
@@ -12,6 +13,7 @@ import Slock.Model.TextMd5
   textconvc <db> <ptimeout> <args>    → same, outcome class only (clock-dependent commands)
   textresult  <result> <flag> <lockid> <lcount> <count> <lrcount> <rcount> <data|nil> → hex written | panic
   textsresult … (same arguments)      → TextServerProtocol.WriteCommand
+  thval <string|array|kv|props|prop:N> <frame> → the value reader's result on NewLockResultCommandDataFromOriginBytes(frame) | panic
 -/
 namespace Driver
 open Slock.Text
@@ -90,7 +92,53 @@ def handleTextCmd : List String → Option String
   | "textsresult" :: rest => do pure (showRender (renderServerResult (← parseResult rest)))
   | _ => none
 
+def insertKV (k v : String) : List (String × String) → List (String × String)
+  | [] => [(k, v)]
+  | (k', v') :: rest =>
+    if k == k' then (k, v) :: rest
+    else if k < k' then (k, v) :: (k', v') :: rest
+    else (k', v') :: insertKV k v rest
+
+def showList (xs : List String) : String := if xs.isEmpty then "empty" else ",".intercalate xs
+
+def handleTextValue : List String → Option String
+  | ["thval", what, frame] => do
+    let d ← parseHex frame
+    match what with
+    | "string" =>
+      match Slock.TextV.getString d with
+      | .ok b => pure (showHex b)
+      | .panic => pure "panic"
+    | "array" =>
+      match Slock.TextV.getArray d with
+      | .ok none => pure "nil"
+      | .ok (some vs) => pure (showList (vs.map showHex))
+      | .panic => pure "panic"
+    | "kv" =>
+      match Slock.TextV.getKV d with
+      | .ok none => pure "nil"
+      | .ok (some kvs) =>
+        let m := kvs.foldl (fun acc (kv : List UInt8 × List UInt8) => insertKV (showHex kv.1) (showHex kv.2) acc) []
+        pure (showList (m.map (fun kv => kv.1 ++ "=" ++ kv.2)))
+      | .panic => pure "panic"
+    | "props" =>
+      match Slock.TextV.getProps d with
+      | .ok none => pure "nil"
+      | .ok (some ps) => pure (showList (ps.map (fun p => s!"{p.1}:{showHex p.2}")))
+      | .panic => pure "panic"
+    | w =>
+      if w.startsWith "prop:" then
+        match (w.drop 5).toNat? with
+        | none => none
+        | some code =>
+          match Slock.TextV.getProp d code with
+          | .ok none => pure "none"
+          | .ok (some v) => pure (showHex v)
+          | .panic => pure "panic"
+      else none
+  | _ => none
+
 def handleText (toks : List String) : Option String :=
-  handleTextParse toks <|> handleTextCmd toks
+  handleTextParse toks <|> handleTextCmd toks <|> handleTextValue toks
 
 end Driver
